@@ -9,6 +9,8 @@ CONSTANTS
   QCap = 5
   StopFix = FALSE
   EmitMax = 0
+  Pipes = {FALSE}
+  PCap = 1
 SPECIFICATION Spec
 INVARIANTS Safe
 PROPERTIES StopLive Delivery
